@@ -291,174 +291,6 @@ func ownershipRule(r *Run, rule string) {
 	}
 }
 
-func lookupOrderRule(r *Run, rule string) {
-	w := r.W
-	cf := w.contextFields()
-	if cf == nil {
-		r.Lost(rule, "fields of Context")
-		return
-	}
-	var f *FuncInfo
-	for _, g := range w.Funcs("") {
-		if isMethodOf(g, cf.typ) && g.Decl.Name.Name == "Value" {
-			f = g
-		}
-	}
-	if f == nil {
-		r.Lost(rule, "Context.Value")
-		return
-	}
-	info := f.Pkg.TypesInfo
-	recv := f.Obj.Type().(*types.Signature).Recv()
-	// flatten the statements in source order and find the three steps
-	var lookup *ast.AssignStmt
-	var hitRet, outerRet, embRet *ast.ReturnStmt
-	var okVar, valVar types.Object
-	inspectBody(f.Decl.Body, false, func(n ast.Node) bool {
-		switch x := n.(type) {
-		case *ast.AssignStmt:
-			if len(x.Rhs) == 1 {
-				if c, ok := unparen(x.Rhs[0]).(*ast.CallExpr); ok && len(x.Lhs) == 2 {
-					if sel, ok := unparen(c.Fun).(*ast.SelectorExpr); ok && objOf(info, sel.X) == recv && w.localLookupHelper(cf, w.FuncOf(calleeOf(info, c))) && len(c.Args) == 1 {
-						if lookup != nil {
-							r.Bad(rule, f.Name(), "second local lookup "+short(w.Fset, x), w.Pos(x.Pos()), "one local lookup expected")
-						}
-						lookup = x
-						valVar, okVar = objOf(info, x.Lhs[0]), objOf(info, x.Lhs[1])
-					}
-				}
-				if ix, ok := unparen(x.Rhs[0]).(*ast.IndexExpr); ok {
-					if b, fld := fieldOf(info, ix.X); fld == cf.data && objOf(info, b) == recv {
-						if lookup != nil {
-							r.Bad(rule, f.Name(), "second local lookup "+short(w.Fset, x), w.Pos(x.Pos()), "one local lookup expected")
-						}
-						lookup = x
-						if len(x.Lhs) == 2 {
-							valVar, okVar = objOf(info, x.Lhs[0]), objOf(info, x.Lhs[1])
-						} else {
-							valVar = objOf(info, x.Lhs[0])
-						}
-					}
-				}
-			}
-		case *ast.ReturnStmt:
-			if len(x.Results) != 1 {
-				return true
-			}
-			e := unparen(x.Results[0])
-			if valVar != nil && objOf(info, e) == valVar {
-				hitRet = x
-			}
-			if c, ok := e.(*ast.CallExpr); ok {
-				if sel, ok := unparen(c.Fun).(*ast.SelectorExpr); ok {
-					if b, fld := fieldOf(info, sel.X); fld == cf.outer && objOf(info, b) == recv && sel.Sel.Name == "Value" {
-						outerRet = x
-					}
-					if b, fld := fieldOf(info, sel.X); fld == cf.embedded && objOf(info, b) == recv && sel.Sel.Name == "Value" {
-						embRet = x
-					}
-				}
-			}
-		}
-		return true
-	})
-	if lookup == nil || hitRet == nil || outerRet == nil || embRet == nil {
-		r.Bad(rule, f.Name(), "lookup steps", w.Pos(f.Decl.Pos()), "Value must look in the local map, then in outer, then in the embedded context; one of the three steps is missing")
-		return
-	}
-	if okVar == nil {
-		r.Bad(rule, f.Name(), "local lookup "+short(w.Fset, lookup), w.Pos(lookup.Pos()),
-			"the local lookup must use the comma-ok form: a key that is present with a nil value must still shadow the outer scope")
-	} else {
-		// the hit return must be guarded by the ok flag alone
-		guard := false
-		if blk, ok := w.Parent(hitRet).(*ast.BlockStmt); ok {
-			if ifs, ok := w.Parent(blk).(*ast.IfStmt); ok && ifs.Body == blk {
-				if objOf(info, ifs.Cond) == okVar {
-					guard = true
-				}
-				if ifs.Init != nil && ifs.Init != ast.Stmt(lookup) {
-					guard = false
-				}
-			}
-		}
-		if guard {
-			r.Ok(rule, f.Name(), "hit decided by the ok flag", w.Pos(hitRet.Pos()), "v, ok := data[k]; if ok { return v }")
-		} else {
-			r.Bad(rule, f.Name(), "hit test of the local lookup", w.Pos(hitRet.Pos()), "the local hit must be decided by the map's ok flag only (not by the value being non-nil or anything else)")
-		}
-	}
-	if lookup.Pos() < hitRet.Pos() && hitRet.Pos() < outerRet.Pos() && outerRet.Pos() < embRet.Pos() {
-		r.Ok(rule, f.Name(), "order local < outer < embedded", w.Pos(f.Decl.Pos()), "source order of the three exits")
-	} else {
-		r.Bad(rule, f.Name(), "order of lookups", w.Pos(f.Decl.Pos()), "the nearest scope must win: local map first, then outer, then the embedded context")
-	}
-	// the outer step is guarded by outer != nil and passes the same key
-	okOuter := false
-	if blk, ok := w.Parent(outerRet).(*ast.BlockStmt); ok {
-		if ifs, ok := w.Parent(blk).(*ast.IfStmt); ok {
-			if be, ok := unparen(ifs.Cond).(*ast.BinaryExpr); ok && be.Op == token.NEQ && isNilIdent(info, be.Y) {
-				if _, fld := fieldOf(info, be.X); fld == cf.outer {
-					okOuter = true
-				}
-			}
-		}
-	}
-	if okOuter {
-		r.Ok(rule, f.Name(), "outer consulted when non-nil", w.Pos(outerRet.Pos()), "if c.outer != nil { return c.outer.Value(k) }")
-	} else {
-		r.Bad(rule, f.Name(), "outer step guard", w.Pos(outerRet.Pos()), "the outer scope must be consulted exactly when it exists")
-	}
-}
-
-// localLookupHelper: a Context method (key) (interface{}, bool) that returns
-// exactly the comma-ok lookup of the key in the receiver's own map and does
-// not touch the outer link.
-func (w *World) localLookupHelper(cf *ctxFields, g *FuncInfo) bool {
-	if g == nil || !isMethodOf(g, cf.typ) {
-		return false
-	}
-	sig := g.Obj.Type().(*types.Signature)
-	if sig.Params().Len() != 1 || sig.Results().Len() != 2 || !isBasicKind(sig.Results().At(1).Type(), types.Bool) {
-		return false
-	}
-	info := g.Pkg.TypesInfo
-	var v, ok types.Object
-	n := 0
-	touchesOuter := false
-	inspectBody(g.Decl.Body, false, func(nd ast.Node) bool {
-		switch x := nd.(type) {
-		case *ast.AssignStmt:
-			if len(x.Rhs) == 1 && len(x.Lhs) == 2 {
-				if ix, isIx := unparen(x.Rhs[0]).(*ast.IndexExpr); isIx {
-					if b, fld := fieldOf(info, ix.X); fld == cf.data && objOf(info, b) == sig.Recv() && objOf(info, ix.Index) == sig.Params().At(0) {
-						n++
-						v, ok = objOf(info, x.Lhs[0]), objOf(info, x.Lhs[1])
-					}
-				}
-			}
-		case *ast.SelectorExpr:
-			if _, fld := fieldOf(info, x); fld == cf.outer || fld == cf.embedded {
-				touchesOuter = true
-			}
-		}
-		return true
-	})
-	if n != 1 || touchesOuter || v == nil || ok == nil {
-		return false
-	}
-	rets := returnsIn(g.Decl.Body)
-	if len(rets) == 0 {
-		return false
-	}
-	for _, ret := range rets {
-		if len(ret.Results) != 2 || objOf(info, ret.Results[0]) != v || objOf(info, ret.Results[1]) != ok {
-			return false
-		}
-	}
-	return true
-}
-
 func hasRule(r *Run, rule string) {
 	w := r.W
 	cf := w.contextFields()
@@ -493,105 +325,4 @@ func hasRule(r *Run, rule string) {
 		return
 	}
 	r.Lost(rule, "Context.Has")
-}
-
-func helperInjectionRule(r *Run, rule string) {
-	w := r.W
-	cf := w.contextFields()
-	if cf == nil {
-		r.Lost(rule, "fields of Context")
-		return
-	}
-	for _, f := range w.Funcs("") {
-		sig := f.Obj.Type().(*types.Signature)
-		if sig.Recv() != nil || sig.Results().Len() != 1 || !namedIs(sig.Results().At(0).Type(), modPath, "Context") {
-			continue
-		}
-		info := f.Pkg.TypesInfo
-		// only constructors: functions that build a Context (by literal or through another builder)
-		bld := w.ctxBuilder(f, 0)
-		if bld == nil {
-			continue
-		}
-		newCtx := bld.newVar
-		var outerP *types.Var
-		for i := 0; i < sig.Params().Len(); i++ {
-			if namedIs(sig.Params().At(i).Type(), modPath, "Context") {
-				outerP = sig.Params().At(i)
-			}
-		}
-		// every Set in the constructor
-		nSet := 0
-		for _, c := range callsIn(f.Decl.Body, false) {
-			cal := calleeOf(info, c)
-			sel, isSel := unparen(c.Fun).(*ast.SelectorExpr)
-			if cal == nil || !isSel || cal.Name() != "Set" {
-				continue
-			}
-			nSet++
-			con := "helper injection " + short(w.Fset, c)
-			if objOf(info, sel.X) != newCtx || len(c.Args) != 2 {
-				r.Bad(rule, f.Name(), con, w.Pos(c.Pos()), "the constructor sets on something other than the new context")
-				continue
-			}
-			key := objOf(info, c.Args[0])
-			// enclosing if: conjunction of !X.Has(key)
-			var guards []string
-			okShape := false
-			if blk, ok := w.Parent(w.Parent(c)).(*ast.BlockStmt); ok {
-				if ifs, ok := w.Parent(blk).(*ast.IfStmt); ok && ifs.Body == blk && ifs.Else == nil && len(blk.List) == 1 {
-					okShape = true
-					for _, cj := range conjuncts(ifs.Cond) {
-						u, ok := unparen(cj).(*ast.UnaryExpr)
-						if !ok || u.Op != token.NOT {
-							okShape = false
-							continue
-						}
-						hc, ok := unparen(u.X).(*ast.CallExpr)
-						if !ok || len(hc.Args) != 1 || objOf(info, hc.Args[0]) != key {
-							okShape = false
-							continue
-						}
-						hs, ok := unparen(hc.Fun).(*ast.SelectorExpr)
-						if !ok || hs.Sel.Name != "Has" {
-							okShape = false
-							continue
-						}
-						switch {
-						case objOf(info, hs.X) == newCtx:
-							guards = append(guards, "new")
-						case outerP != nil && objOf(info, hs.X) == outerP:
-							guards = append(guards, "outer")
-						default:
-							if b, fld := fieldOf(info, hs.X); fld == cf.outer && objOf(info, b) == newCtx {
-								guards = append(guards, "outer")
-							} else {
-								okShape = false
-							}
-						}
-					}
-				}
-			}
-			needOuter := outerP != nil
-			hasNew, hasOuter := containsStr(guards, "new"), containsStr(guards, "outer")
-			if okShape && hasNew && (hasOuter || !needOuter) {
-				r.Ok(rule, f.Name(), con, w.Pos(c.Pos()), "guarded by !Has(key) on the new context"+map[bool]string{true: " and on the outer chain", false: ""}[needOuter])
-			} else {
-				r.Bad(rule, f.Name(), con, w.Pos(c.Pos()),
-					"a default helper may be set only under '!c.Has(k)' (and, with an outer context, '!outer.Has(k)', which walks the whole chain): otherwise a user value under a helper's name is shadowed")
-			}
-		}
-		if nSet == 0 {
-			r.Note("R4: constructor %s injects no helpers", f.Name())
-		}
-	}
-}
-
-func containsStr(xs []string, s string) bool {
-	for _, x := range xs {
-		if x == s {
-			return true
-		}
-	}
-	return false
 }
